@@ -254,8 +254,8 @@ theorem maxAbsInColumn_total {m : Mat K} {n k : Nat} (hm : WFn m n) (hk : k < n)
         · subst e; exact not_lt.mp hlt
         · exact hle k' hk' (by omega))
   simp only at h0 hle hmx
-  simp only [bind, Except.bind] at hs
-  simp only [bind, Except.bind, hs, pure, Except.pure]
+  simp only [bind, Except.bind, pure, Except.pure] at hs
+  simp only [bind, Except.bind, pure, Except.pure, hs]
   obtain ⟨i, hi1, hi2, hne⟩ := hnz
   have hpos : 0 < |ent m i k| := abs_pos.mpr hne
   have hmx0 : mx ≠ 0 := by
@@ -304,7 +304,7 @@ theorem gauss_total {n : Nat} (hn : 1 ≤ n) {A : Mat K} {b : Array K} (hA : WFn
     have hkn : k < n := by omega
     have hnz : ∃ i, k ≤ i ∧ i < n ∧ ent ms i k ≠ 0 := by
       by_contra hcon
-      push_neg at hcon
+      push Not at hcon
       exact hd (det_zero_of_good_zero_col hkn hg hcon)
     obtain ⟨m1, x1, p, hpp, hkp, hpn, hne, hw1, hsz1, he1⟩ := partialPivot_total hw hsz hkn hnz
     have hpiv : ent m1 k k ≠ 0 := by
